@@ -1,5 +1,6 @@
 """C08 `-- stylua: ignore` regions are reproduced verbatim - static necessary conditions."""
 import r_skip
+import r_directive
 
 EXPLANATION = (
     "Path enumeration / dominance over the MIR of every feature configuration: (a) in every single-node formatter "
@@ -8,12 +9,15 @@ EXPLANATION = (
     "(leading-newline removal, trailing-trivia moves, semicolon rewriting) is dominated by should_format_node == "
     "Normal; (d) wherever should_format_node or a per-element formatter is applied along a sequence (block "
     "statements, table fields, require groups) the Context was produced by check_toggle_formatting, so ignore "
-    "start/end regions are honoured. Not decided: directive detection (string comparison on comment text), the "
-    "position of the reproduced slice in the output.")
+    "start/end regions are honoured; (R-DIRECTIVE) the detectors compare exactly the three directive texts with a "
+    "trimmed line of the comment text of a leading trivia token (backward walk through iterator adaptors and closures), "
+    "a match returns Skip / sets formatting_disabled true|false in the returned Context, and formatting_disabled "
+    "makes should_format_node return Skip first. Not decided: the position of the reproduced slice in the output.")
 ASSUMPTIONS = ["to_owned/clone of a full_moon node reproduces its tokens and trivia verbatim",
                "rustc MIR and Instance::try_resolve are trusted"]
 
 
 def run(ctx):
     return [r_skip.rule_skip_edge(ctx, "C08", statuses=("Skip",)), r_skip.rule_post(ctx, "C08"),
-            r_skip.rule_toggle(ctx, "C08"), r_skip.rule_sort_guard(ctx, "C08", must_block=("Skip",))]
+            r_skip.rule_toggle(ctx, "C08"), r_skip.rule_sort_guard(ctx, "C08", must_block=("Skip",)),
+            r_directive.rule_directive(ctx, "C08")]
